@@ -8,11 +8,12 @@ from ..core import Reporter, Workdir, try_compile, text_hash, reset_cohdl_state
 from .. import vhdl_sim as VS
 from ..vhdl_parse import Illegal, Unsupported
 from ..refsem import RefProc, RejectExpected, RUnsupported
+from ..refseq import UseBeforeDef
 from ..seqcheck import VModel, pair_induction, bmc, replay_trace, SeqProgram
 from .. import gen_coro
 
 
-def check_program(rep, wd, prog: SeqProgram, K, want_reset_pairs=False):
+def check_program(rep, wd, prog: SeqProgram, K, want_reset_pairs=False, ref_cls=RefProc):
     """-> dict(status=..., ...)"""
     st = rep.stats
     try:
@@ -29,7 +30,7 @@ def check_program(rep, wd, prog: SeqProgram, K, want_reset_pairs=False):
         return {"status": "rejected", "why": f"{type(exc).__name__}: {str(exc)[:200]}"}
     st.accepted += 1
     try:
-        ref = RefProc(prog.source, prog.proc, prog.objs)
+        ref = ref_cls(prog.source, prog.proc, prog.objs)
     except RUnsupported as e:
         return {"status": "outside", "why": str(e)}
     try:
@@ -42,6 +43,8 @@ def check_program(rep, wd, prog: SeqProgram, K, want_reset_pairs=False):
         res = pair_induction(st, prog, lib, ref, vm)
     except RUnsupported as e:
         return {"status": "outside", "why": str(e)}
+    except UseBeforeDef as e:
+        return {"status": "must-reject", "why": f"name {e} is bound on some paths only", "vhdl": text, "lib": lib, "vm": vm}
     if res.violation:
         return {"status": "outside", "why": "R: " + res.violation["why"]}
     if res.inconclusive:
